@@ -97,7 +97,8 @@ def parent_main(argv):
             if replay_path:
                 cmd.append(replay_path)
             log = open(os.path.join(cwd, "log.txt"), "w")
-            p = subprocess.Popen(cmd, cwd=cwd, stdout=log, stderr=subprocess.STDOUT)
+            # temporary files of the shard (autograph sources, scratch files) live in its own directory, removed with it
+            p = subprocess.Popen(cmd, cwd=cwd, stdout=log, stderr=subprocess.STDOUT, env=dict(os.environ, TMPDIR=cwd))
             procs.append((p, out, log, cwd))
         results = []
         problems = []
